@@ -224,6 +224,24 @@ theorem flush_extCalls (c : CS) (he : c.ext = true) (hm : ∀ a ∈ c.externs, a
   intro a _
   rw [(f1 a).2]
 
+/-- the same from any state (a later step of an incremental program): the step's external calls are appended to those of the earlier steps -/
+theorem flush_extCalls_app (c : CS) (he : c.ext = true) (hm : ∀ a ∈ c.externs, a ∈ domOf c) (hi : Inv (abs c)) :
+    extCalls (c.flush.emit .endStep).out = extCalls c.out ++ c.externs.map (fun a => (sm c.flushMinimize a, ex c a)) := by
+  obtain ⟨f1, f2, f3⟩ := flushMinimize_flags c
+  have hm1 : ∀ a ∈ c.flushMinimize.externs, a ∈ domOf c.flushMinimize := by
+    intro a ha
+    exact dom_mono (flushMinimize_steps c) hi a (hm a (f2 ▸ ha))
+  rw [emit_frameX _ _ rfl]
+  show extCalls ((c.flushMinimize.flushExternal.flushHeuristic.flushSymbols).emit (.assume [-1])).out = _
+  rw [emit_frameX _ _ rfl, flushSymbols_frameX, flushHeuristic_eq, foldl_frameX heuStep heuStep_frameX,
+    flushExternal_specT _ (f3.trans he) (fun a ha => dom_find _ a (hm1 a ha))]
+  simp only [extCalls_append, flushMinimize_frameX, extCallsT, f2]
+  rw [extCalls_externals]
+  congr 1
+  apply List.map_congr_left
+  intro a _
+  rw [(f1 a).2]
+
 /-! ### what the emitted externals say is the renaming of what the given externals say -/
 theorem filter_map_comm {α β : Type} (l : List α) (f : α → β) (p : β → Bool) : (l.map f).filter p = (l.filter (p ∘ f)).map f := by
   induction l with
